@@ -3,6 +3,7 @@ from props.m1common import *  # noqa: F401,F403
 from props.m1common import g, sp, sx, rng_for, is_err, compare_result, shrink_tree
 
 PID = "C05"
+KERNELS = ['K_chronon_cut_off']   # translated from /repo on every run, tied to the model by coq/Gen/<name>_eq.v
 RUNNER = "impl_m1.py"
 VM_CROSSCHECK = True
 N = {"quick": 2000, "thorough": 80000}
@@ -150,6 +151,15 @@ def check_seq(t, r, start, new):
     for (a, l) in zero_leaves(t, seq_only=True):
         if (d == 0 or a < start or a > start + d) and (a, l) not in zr:
             return f"zero-length leaf {l} at time {a} lies outside [start, start + d] but did not survive at its time"
+    # ... and no zero-length leaf of the original is MOVED: where it reappears it sits at its old time (the only
+    # re-timing the model has is the nested edge above: from start + d to start; zero-length voices of a
+    # simultaneity travel with it when it is shortened from the front and are left out)
+    zt = {}
+    for (a, l) in zero_leaves(t, seq_only=True):
+        zt.setdefault(l, set()).add(a)
+    for (a, l) in zero_leaves(r, seq_only=True):
+        if l in zt and l not in newl and a not in zt[l] and not (a == start and (start + d) in zt[l]):
+            return f"zero-length leaf {l} was moved from time {sorted(zt[l])} to {a} (the rest has to stay at its old time)"
     o = 0
     for c in sp.kids(t):
         if d > 0 and c[0] == "L" and c[1] == 0 and o == start + d and (o, c[2]) not in zr:
